@@ -41,6 +41,44 @@ CONTAINER_MUTATORS = {"add", "remove", "discard", "update", "clear", "pop", "pop
                       "insert", "sort", "reverse", "difference_update", "intersection_update",
                       "symmetric_difference_update", "__setitem__", "__delitem__"}
 MODIFIES = re.compile(r"\bin[- ]?place\b|\bmodif(y|ies|ied)\b|\bto update\b|\bupdated\b|\bmutat", re.I)
+# A callable is *documented as in-place* by what it IS, not by a stray word in its docstring (review 2, item 4):
+#   - structurally: an `in_place` parameter, membership in the class's freeze() list, a mutating protocol method;
+#   - by announcement: its NAME starts with a verb of change (set_node_attributes, merge_duplicate_edges, update, freeze, close,
+#     the deprecated add_/remove_ aliases of SimplicialComplex), or it BEHAVES as a procedure (its body returns no value) and
+#     the first word of its summary line is such a verb / for module-level functions the description of the first parameter
+#     says that the argument is modified.
+# A callable that returns a value and has none of the structural marks is a function of its argument and is run under the
+# before/after comparison, whatever its docstring says; the presence or wording of a "Returns" section plays no role.
+CHANGE_VERB = re.compile(r"^(add|adds|adding|remove|removes|removing|set|sets|setting|merge|merges|merging|update|updates|updating|"
+                         r"freeze|freezes|freezing|close|closes|clear|clears|clearing|delete|deletes|del|discard|discards|pop|pops|"
+                         r"insert|inserts|rename|renames|relabel|relabels|shuffle|shuffles|swap|swaps|rewire|rewires|prune|prunes|"
+                         r"reset|resets|sort|sorts|reverse|reverses|extend|extends|append|appends|drop|drops|replace|replaces|"
+                         r"move|moves|assign|assigns|attach|detach|fill|fills)$", re.I)
+
+
+def name_announces_change(name):
+    return bool(CHANGE_VERB.match(name.strip("_").split("_")[0]))
+
+
+def summary_announces_change(doc):
+    words = re.findall(r"[A-Za-z]+", (doc or "").strip().split("\n")[0])
+    return bool(words) and bool(CHANGE_VERB.match(words[0]))
+
+
+def is_procedure(f):
+    """behavioural side of the classification, read from the body: no `return <value>` and no `yield` (the run-time cross-check
+    in props/c08.py confirms it: a declared mutator whose completed calls return something is reported)"""
+    fn = _fn_ast(f) if f is not None else None
+    if fn is None:
+        return False
+    for node in ast.walk(fn):
+        if isinstance(node, (ast.FunctionDef, ast.AsyncFunctionDef, ast.Lambda)) and node is not fn:
+            continue
+        if isinstance(node, (ast.Yield, ast.YieldFrom)):
+            return False
+        if isinstance(node, ast.Return) and node.value is not None and not (isinstance(node.value, ast.Constant) and node.value.value is None):
+            return False
+    return True
 
 
 def repo_root():
@@ -181,6 +219,10 @@ def doc_declares_mutation(f):
     """module-level function: the summary paragraph or the first parameter's entry says the argument is changed"""
     doc = inspect.getdoc(f) or ""
     ps = sig_params(f) or []
+    if not is_procedure(f):
+        return False                                   # it returns a value: a function of its argument, whatever the wording
+    if name_announces_change(f.__name__) or summary_announces_change(doc):
+        return True
     if ps:
         for names, typ, desc in doc_params(doc):
             if ps[0].name in names and MODIFIES.search(typ + " " + desc):
@@ -284,39 +326,68 @@ def scan_writes(f, pname, mutator_methods, inplace_functions, rebinding_counts, 
         else:
             yield t
 
-    # local names bound to one of the argument's own containers (`ms = H._edge[e]`, `tbl = self._node_attr`): a write
-    # through such a name is a write to the argument.  Only plain chains of private attributes / subscripts count
-    # (a call result such as `H.edges.members(e)` is a new object unless the callee itself is at fault).
+    # local names bound to one of the argument's own containers (`ms = H._edge[e]`, `tbl = self._node_attr`, also through
+    # another such name: `members = H._edge; fresh = members[e]`, and in tuple assignments `a, b = H._node, H._edge`): a write
+    # through such a name is a write to the argument.  Only plain chains of private attributes / subscripts count (a call
+    # result such as `H.edges.members(e)` or `set(link)` is a new object unless the callee itself is at fault).  The scan
+    # follows the statements in source order: a name that is rebound to something else (`link = set(link)`) stops being an
+    # alias from there on.
+    def alias_source(value, aliases):
+        r, chain = _root(value)
+        if r == pname and chain and "()" not in chain and chain[0].startswith("_"):
+            return ast.unparse(value)
+        if r in aliases and "()" not in chain and (chain or isinstance(value, ast.Name)):
+            return f"{ast.unparse(value)} via {aliases[r]}"
+        return None
+
+    ordered = sorted((n for st in body for n in ast.walk(st) if hasattr(n, "lineno")),
+                     key=lambda n: (n.lineno, n.col_offset))
     aliases = {}
-    for st in body:
-        for node in ast.walk(st):
-            if isinstance(node, ast.Assign) and len(node.targets) == 1 and isinstance(node.targets[0], ast.Name):
-                r, chain = _root(node.value)
-                if r == pname and chain and "()" not in chain and chain[0].startswith("_"):
-                    aliases[node.targets[0].id] = ast.unparse(node.value)
-    aliases.pop(pname, None)
+    for node in ordered:
+        # writes through the aliases known at this point
+        if aliases:
+            if isinstance(node, ast.AugAssign) and isinstance(node.target, ast.Name) and node.target.id in aliases \
+                    and isinstance(node.op, (ast.BitOr, ast.BitAnd, ast.Sub, ast.BitXor, ast.Add)):
+                hits.append(f"{node.target.id} (= {aliases[node.target.id]}) {type(node.op).__name__}=")
+            tga = []
+            if isinstance(node, ast.Assign):
+                tga = [x for t in node.targets for x in targets(t)]
+            elif isinstance(node, ast.AugAssign):
+                tga = [node.target]
+            elif isinstance(node, ast.Delete):
+                tga = list(node.targets)
+            for t in tga:
+                r, chain = _root(t)
+                if r in aliases and chain:
+                    hits.append(f"{ast.unparse(t)} (alias of {aliases[r]})")
+            if isinstance(node, ast.Call):
+                r, chain = _root(node.func)
+                if r in aliases and chain and chain[-1] in CONTAINER_MUTATORS and "()" not in chain[:-1]:
+                    hits.append(f"{ast.unparse(node.func)}() (alias of {aliases[r]})")
+        # bindings made by this statement
+        if isinstance(node, ast.Assign):
+            for t in node.targets:
+                pairs = []
+                if isinstance(t, ast.Name):
+                    pairs = [(t, node.value)]
+                elif isinstance(t, (ast.Tuple, ast.List)) and isinstance(node.value, (ast.Tuple, ast.List)) \
+                        and len(t.elts) == len(node.value.elts):
+                    pairs = [(a, b) for a, b in zip(t.elts, node.value.elts) if isinstance(a, ast.Name)]
+                elif isinstance(t, (ast.Tuple, ast.List)):
+                    pairs = [(a, None) for a in t.elts if isinstance(a, ast.Name)]
+                for a, b in pairs:
+                    src = alias_source(b, aliases) if b is not None else None
+                    if src is not None and a.id != pname:
+                        aliases[a.id] = src
+                    else:
+                        aliases.pop(a.id, None)
+        elif isinstance(node, (ast.For, ast.AsyncFor)):
+            for a in targets(node.target):
+                if isinstance(a, ast.Name):
+                    aliases.pop(a.id, None)
 
     for st in body:
         for node in ast.walk(st):
-            if aliases:
-                if isinstance(node, ast.AugAssign) and isinstance(node.target, ast.Name) and node.target.id in aliases \
-                        and isinstance(node.op, (ast.BitOr, ast.BitAnd, ast.Sub, ast.BitXor, ast.Add)):
-                    hits.append(f"{node.target.id} (= {aliases[node.target.id]}) {type(node.op).__name__}=")
-                tga = []
-                if isinstance(node, ast.Assign):
-                    tga = [x for t in node.targets for x in targets(t)]
-                elif isinstance(node, ast.AugAssign):
-                    tga = [node.target]
-                elif isinstance(node, ast.Delete):
-                    tga = list(node.targets)
-                for t in tga:
-                    r, chain = _root(t)
-                    if r in aliases and chain:
-                        hits.append(f"{ast.unparse(t)} (alias of {aliases[r]})")
-                if isinstance(node, ast.Call):
-                    r, chain = _root(node.func)
-                    if r in aliases and chain and chain[-1] in CONTAINER_MUTATORS and "()" not in chain[:-1]:
-                        hits.append(f"{ast.unparse(node.func)}() (alias of {aliases[r]})")
             tg = []
             if isinstance(node, ast.Assign):
                 tg = [x for t in node.targets for x in targets(t)]
@@ -425,7 +496,8 @@ def extract():
             if name.startswith("__"):
                 dm = name in MUTATING_PROTOCOL
             else:
-                dm = name in fz or hip or (kind == "method" and not has_returns(doc))
+                dm = name in fz or hip or (kind == "method" and (name_announces_change(name) or
+                                                                   (is_procedure(fn) and summary_announces_change(doc))))
             declared[(cls.__name__, name)] = dict(kind=kind, fn=fn, hip=hip, dip=dip, doc_mut=dm, frozen_list=name in fz)
     mutator_methods = {n for (c, n), d in declared.items() if d["doc_mut"]}
 
